@@ -1309,6 +1309,32 @@ func (x *Exec) run(op GenOp, i int) LogOp {
 		x.ords = append(x.ords, h)
 		x.issued = append(x.issued, h)
 	}
+	if op.Op == "Load" && !lo.Panic {
+		// nothing is registered in the loaded world; wrappers bound to the old world are dropped (mode fresh) or
+		// kept (mode reset: the same world object)
+		keepOrds, keepIssued := append([]ecs.Entity{}, x.ords...), append([]ecs.Entity{}, x.issued...)
+		if op.Mode != "reset" {
+			x.maps = map[string]TypedMap{}
+			x.exs = map[string]TypedExchange{}
+			x.oldObs = map[int]oldObs{}
+			x.oldFilters = map[int]*regFilter{}
+		} else {
+			for id, o := range x.obs {
+				x.oldObs[id] = oldObs{o: o, spec: fmt.Sprint(x.obsSpec[id])}
+			}
+			for id, rf := range x.filters {
+				x.oldFilters[id] = rf
+			}
+		}
+		x.obs = map[int]*ecs.Observer{}
+		x.tobs = map[int]TypedObserver{}
+		x.obsSpec = map[int]GenObs{}
+		x.queries = map[int]*openQuery{}
+		x.filters = map[int]*regFilter{}
+		x.pool = map[string]*regFilter{}
+		x.recent = nil
+		x.ords, x.issued = keepOrds, keepIssued
+	}
 	if op.Op == "Reset" && !lo.Panic {
 		for id, o := range x.obs {
 			x.oldObs[id] = oldObs{o: o, spec: fmt.Sprint(x.obsSpec[id])}
@@ -1731,6 +1757,34 @@ func (x *Exec) dispatch(op GenOp, e ecs.Entity, tg map[string]ecs.Entity, lo *Lo
 		}
 	case "Reset":
 		w.Reset()
+	case "Load":
+		// the world continues as the one its own entity dump is loaded into (through JSON): a fresh world with the
+		// same registrations (mode fresh), or this world after Reset (mode reset)
+		d := w.Unsafe().DumpEntities()
+		b, err := json.Marshal(&d)
+		if err != nil {
+			panic(err)
+		}
+		d = ecs.EntityDump{}
+		if err := json.Unmarshal(b, &d); err != nil {
+			panic(err)
+		}
+		if op.Mode == "reset" {
+			w.Reset()
+			w.Unsafe().LoadEntities(&d)
+			return
+		}
+		w2 := ecs.NewWorld(x.Cfg.Caps...)
+		for i := 0; i < x.Cfg.Fill; i++ {
+			ecs.TypeID(w2, reflect.ArrayOf(i+1, reflect.TypeFor[uint8]()))
+		}
+		for _, c := range x.Cfg.Comps {
+			if id := ecs.TypeID(w2, compTypes[c]); id != x.ids[c] {
+				panic(harnessBug{"component ids differ in the second world"})
+			}
+		}
+		w2.Unsafe().LoadEntities(&d)
+		x.w = w2
 	default:
 		panic(harnessBug{"unknown op " + op.Op})
 	}
